@@ -59,13 +59,15 @@ def r1_termination(ctx, res):
     res.inst(key, rp.module.loc(rp.node), f'{idioms}')
     if not ws or any(i == 'NONE' for i in idioms):
         res.find(key, rp.module.loc(rp.node), 'relation_paths lost its per-path visited guard (see C11-R1)')
-    # taxonomy_depth: bounded for over the synsets, skipping those all of whose hypernyms were seen
-    td = ctx.repo.func('taxonomy', 'taxonomy_depth')
+    # taxonomy_depth: bounded for over the synsets of the part of speech
+    from ..speccheck import view
+    v = view(ctx, 'taxonomy', 'taxonomy_depth')
     key = 'taxonomy_depth:bounded-for'
-    fors = [n for n in walk_no_nested(td.node) if isinstance(n, ast.For)]
-    res.inst(key, td.module.loc(td.node), f'{[norm(f.iter) for f in fors]}')
-    if not fors or '_synsets_for_pos(wordnet, pos)' not in norm(fors[0].iter):
-        res.find(key, td.module.loc(td.node), 'taxonomy_depth no longer iterates _synsets_for_pos(wordnet, pos)')
+    fors = sorted({c for r in v.rows for c in r[3] if c.startswith('for ')})
+    res.inst(key, v.loc(), f'{fors}')
+    if fors != ['for _synsets_for_pos(wordnet, pos)']:
+        res.find(key, v.loc(), f'taxonomy_depth iterates {fors} instead of all synsets of the part of speech (_synsets_for_pos(wordnet, pos)): '
+                               f'a chain that does not start at one of the iterated synsets is not measured')
 
 
 def forwarding(ctx, res, modules, prefix):
@@ -97,23 +99,24 @@ def r2_forwarding(ctx, res):
 
 
 def r3_as_merge(ctx, res):
-    f = ctx.repo.func('taxonomy', '_synsets_for_pos')
-    key = 'a-s-merge'
-    pairs = {}
-    for n in walk_no_nested(f.node):
-        if isinstance(n, ast.If):
-            node = n
-            while isinstance(node, ast.If):
-                t = norm(node.test)
-                ext = [norm(s) for s in node.body]
-                pairs[t] = ext
-                node = node.orelse[0] if len(node.orelse) == 1 and isinstance(node.orelse[0], ast.If) else None
-    res.inst(key, f.module.loc(f.node), f'{pairs}')
-    want = {'pos == ADJ': ['synsets.extend(wordnet.synsets(pos=ADJ_SAT))'], 'pos == ADJ_SAT': ['synsets.extend(wordnet.synsets(pos=ADJ))']}
-    if pairs != want:
-        res.find(key, f.module.loc(f.node), f'_synsets_for_pos merges parts of speech as {pairs}; expected the symmetric a/s merge {want}')
-    if 'synsets = wordnet.synsets(pos=pos)' not in norm(f.node):
-        res.find(key + ':base', f.module.loc(f.node), '_synsets_for_pos no longer starts from wordnet.synsets(pos=pos)')
+    from ..speccheck import view, expect
+    v = view(ctx, 'taxonomy', '_synsets_for_pos')
+    expect(res, 'a-s-merge', v, [
+        ('new', '#1'),
+        ('call', '#1.extend(wordnet.synsets(pos=ADJ_SAT))', ('pos == ADJ',)),
+        ('call', '#1.extend(wordnet.synsets(pos=ADJ))', ('pos == ADJ_SAT',)),
+        ('return', '#1'),
+    ], 'the synsets of a part of speech are wordnet.synsets(pos=pos), with adjectives and satellite adjectives merged both ways')
+    key = 'a-s-merge:base'
+    news = [e for e in v.E if e.kind == 'new']
+    res.inst(key, v.loc(), news[0].text if news else '')
+    if not news or '<wordnet.synsets(pos=pos)>' not in news[0].text:
+        res.find(key, v.loc(), '_synsets_for_pos no longer starts from wordnet.synsets(pos=pos)')
+    key = 'a-s-merge:nothing-else'
+    others = [r for r in v.rows if r[0] in ('call', 'store', 'aug') and 'extend(wordnet.synsets(pos=ADJ' not in r[1]]
+    res.inst(key, v.loc(), f'{len(others)} other effects')
+    for r in others:
+        res.find(key, v.loc(r[4]), f'_synsets_for_pos also does `{r[1][:80]}`')
 
 
 def ont_subset(ctx, res, modshort, prefix):
@@ -138,76 +141,96 @@ def r4_determinism(ctx, res):
         raise AnalysisError('taxonomy functions not found by the ONT analysis')
 
 
+_HP = "list(synset.relation_paths('hypernym', 'instance_hypernym'))"
+_ROOT = '_core.Synset.empty(id=_FAKE_ROOT, _lexid=synset._lexid, _wordnet=synset._wordnet)'
+_COMMON = 'set(flatten(_hypernym_paths(synset, simulate_root, True))).intersection(flatten(_hypernym_paths(other, simulate_root, True)))'
+_SHP = '_shortest_hyp_paths(synset, other, simulate_root)'
+
+
 def r5_anchors(ctx, res):
-    T = lambda name: ctx.repo.func('taxonomy', name)   # noqa: E731
-
-    def ret_of(f):
-        rets = [n for n in walk_no_nested(f.node) if isinstance(n, ast.Return)]
-        return [Frag(r.value) for r in rets if r.value is not None]
-
-    def chk(key, f, ok, msg):
-        res.inst(key, f.module.loc(f.node), 'anchor')
-        if not ok:
-            res.find(key, f.module.loc(f.node), msg)
-    f = T('roots')
-    chk('anchor:roots', f, ret_of(f) == ['[ss for ss in _synsets_for_pos(wordnet, pos) if not ss.hypernyms()]'],
-        f'roots() returns {ret_of(f)}; roots are the synsets of the part of speech without hypernyms')
-    f = T('leaves')
-    chk('anchor:leaves', f, ret_of(f) == ['[ss for ss in _synsets_for_pos(wordnet, pos) if not ss.hyponyms()]'],
-        f'leaves() returns {ret_of(f)}; leaves are the synsets of the part of speech without hyponyms')
-    hp = T('_hypernym_paths')
-    src = Frag(hp.node)
-    chk('anchor:hypernym-relations', hp, "synset.relation_paths('hypernym', 'instance_hypernym')" in src,
-        '_hypernym_paths no longer follows exactly the relations hypernym and instance_hypernym')
-    hy = ctx.repo.func('_core', 'Synset.hypernyms')
-    chk('anchor:hypernyms-method', hy, "self.get_related('hypernym', 'instance_hypernym')" in norm(hy.node),
-        'Synset.hypernyms no longer traverses exactly hypernym and instance_hypernym (roots()/IC would disagree with the paths)')
-    ho = ctx.repo.func('_core', 'Synset.hyponyms')
-    chk('anchor:hyponyms-method', ho, "self.get_related('hyponym', 'instance_hyponym')" in norm(ho.node),
-        'Synset.hyponyms no longer traverses exactly hyponym and instance_hyponym')
-    chk('anchor:include-self', hp, 'paths = [[synset] + path for path in paths] or [[synset]]' in src,
-        '_hypernym_paths(include_self=True) no longer prepends the synset itself (ancestor sets must include it)')
-    chk('anchor:fake-root', hp, 'paths = [path + [root] for path in paths] or [[root]]' in src and 'synset.id != _FAKE_ROOT' in src,
-        'simulate_root no longer appends the fake root to every path (and a lone [root] path for root synsets)')
-    for name in ('_shortest_hyp_paths', 'common_hypernyms'):
-        f = T(name)
-        s = Frag(f.node)
-        chk(f'anchor:{name}:ancestors-include-self', f,
-            '_hypernym_paths(synset, simulate_root, True)' in s and '_hypernym_paths(other, simulate_root, True)' in s,
-            f'{name} no longer computes both ancestor sets with include_self=True')
-        chk(f'anchor:{name}:intersection', f, 'set(flatten(from_self)).intersection(flatten(from_other))' in s,
-            f'{name} no longer intersects the two ancestor sets')
-    f = T('hypernym_paths')
-    chk('anchor:hypernym_paths', f, ret_of(f) == ['_hypernym_paths(synset, simulate_root, False)'],
-        f'hypernym_paths returns {ret_of(f)}')
+    """definitions of the taxonomy functions, stated on their effect summaries (locals inlined, loop variables positional,
+    comprehensions and explicit loops identified)"""
+    from ..speccheck import view, expect
+    T = lambda name: view(ctx, 'taxonomy', name)   # noqa: E731
+    for name, rel in (('roots', 'hypernyms'), ('leaves', 'hyponyms')):
+        expect(res, f'anchor:{name}', T(name), [
+            ('new', '#1'),
+            ('call', '#1.append($1)', (f'not $1.{rel}()',), ('for _synsets_for_pos(wordnet, pos)',)),
+            ('return', '#1'),
+        ], f'{name} are the synsets of the part of speech without {rel}')
+    v = T('_hypernym_paths')
+    with_self = f'[[synset] + _1 for _1 in {_HP}] or [[synset]]'
+    expect(res, 'anchor:hypernym-paths', v, [
+        ('return', _HP, ('not include_self',)),
+        ('return', with_self, ('include_self',)),
+        ('return', f'[_2 + [{_ROOT}] for _2 in ({with_self} if include_self else {_HP})] or [[{_ROOT}]]', ('simulate_root', 'synset.id != _FAKE_ROOT')),
+    ], 'hypernym paths follow exactly hypernym and instance_hypernym through relation_paths; include_self prepends the synset '
+       '(a lone [synset] for roots); simulate_root appends the fake root to every path (a lone [root] for root synsets)')
+    for cls_m, rels in (('Synset.hypernyms', "'hypernym', 'instance_hypernym'"), ('Synset.hyponyms', "'hyponym', 'instance_hyponym'")):
+        vv = view(ctx, '_core', cls_m)
+        expect(res, f'anchor:{cls_m}', vv, [('return', f'self.get_related({rels})')],
+               f'{cls_m} traverses exactly {rels} (roots()/leaves()/IC must agree with the paths)')
+    expect(res, 'anchor:hypernym_paths', T('hypernym_paths'), [('return', '_hypernym_paths(synset, simulate_root, False)')],
+           'hypernym_paths excludes the synset itself')
     for name, fn in (('min_depth', 'min'), ('max_depth', 'max')):
-        f = T(name)
-        want = f'{fn}((len(path) for path in synset.hypernym_paths(simulate_root=simulate_root)), default=0)'
-        chk(f'anchor:{name}', f, ret_of(f) == [want], f'{name} returns {ret_of(f)}; expected {want}')
-    f = T('shortest_path')
-    s = Frag(f.node)
-    chk('anchor:shortest_path:error', f, any(isinstance(n, ast.Raise) and 'wn.Error' in norm(n) for n in walk_no_nested(f.node))
-        and 'if key is None' in s, 'shortest_path no longer raises wn.Error when the synsets share nothing')
-    chk('anchor:shortest_path:min', f, 'min(pathmap, key=lambda key: len(pathmap[key]), default=None)' in s,
-        'shortest_path no longer picks the pivot with the minimal combined path length')
-    chk('anchor:shortest_path:drops-start', f, ret_of(f) == ['pathmap[key][1:]'], f'shortest_path returns {ret_of(f)}; expected the '
-        f'combined path without the start synset')
-    f = T('_shortest_hyp_paths')
-    s = Frag(f.node)
-    chk('anchor:shortest:identity', f, 'if synset == other' in s and 'return {(synset, 0): []}' in s,
-        '_shortest_hyp_paths no longer returns the empty path for identical synsets')
-    chk('anchor:shortest:subpaths', f, 'min(from_self_subpaths, key=len)' in s and 'min(from_other_subpaths, key=len)[-2::-1]' in s,
-        '_shortest_hyp_paths no longer joins the shortest sub-path from each side (other side reversed, pivot dropped)')
-    chk('anchor:shortest:depth', f, 'depth = len(path) - dist - 1' in s and 'depths[ss] < depth' in s,
-        '_shortest_hyp_paths no longer records the maximum depth of each common hypernym')
-    f = T('lowest_common_hypernyms')
-    s = Frag(f.node)
-    chk('anchor:lch', f, 'max([depth for _, depth in pathmap], default=-1)' in s and '[ss for ss, d in pathmap if d == max_depth]' in s,
-        'lowest_common_hypernyms no longer returns the common hypernyms of greatest depth')
-    f = T('taxonomy_depth')
-    s = Frag(f.node)
-    chk('anchor:taxonomy_depth', f, 'depth = max(depth, max((len(path) for path in paths)))' in s and 'ss.hypernym_paths()' in s,
-        'taxonomy_depth is no longer the longest hypernym path of the part of speech')
+        expect(res, f'anchor:{name}', T(name),
+               [('return', f'{fn}((len(_1) for _1 in synset.hypernym_paths(simulate_root=simulate_root)), default=0)')],
+               f'{name} is the {fn}imal length of a hypernym path, 0 for a root')
+    expect(res, 'anchor:common_hypernyms', T('common_hypernyms'), [('return', f'sorted({_COMMON})')],
+           'common hypernyms are the intersection of the two ancestor sets (each including the synset itself), sorted')
+    pivot = f'min({_SHP}, key=lambda _1: len({_SHP}[_1]), default=None)'
+    expect(res, 'anchor:shortest_path', T('shortest_path'), [
+        ('raise', "wn.Error(f'no path between {synset!r} and {other!r}')", (f'{pivot} is None',)),
+        ('return', f'{_SHP}[{pivot}][1:]', (f'{pivot} is not None',)),
+    ], 'shortest_path is the minimal combined path through a common hypernym without the start synset, wn.Error when nothing is shared')
+    v = T('_shortest_hyp_paths')
+    both = '((0, _hypernym_paths(synset, simulate_root, True)), (1, _hypernym_paths(other, simulate_root, True)))'
+    ok = expect(res, 'anchor:shortest', v, [
+        ('return', '{(synset, 0): []}', ('synset == other',)),
+        ('return', '{}', (f'not {_COMMON}', 'synset != other')),
+        ('store', '#2[$1] = ([], [])', (), (f'for {_COMMON}',)),
+        ('store', '#3[$1, #1[$1]] = min(#2[$1][0], key=len) + min(#2[$1][1], key=len)[-2::-1]', (), (f'for sorted({_COMMON})',)),
+        ('return', '#3', (_COMMON, 'synset != other')),
+    ], '_shortest_hyp_paths: empty path for identical synsets, nothing when no ancestor is shared, else for every common hypernym '
+       'the shortest sub-path from each side joined (other side reversed, pivot dropped), keyed by (hypernym, its maximal depth)')
+    if ok:
+        key = 'anchor:shortest:depth'
+        dep = v.find('store', text_re=r'^#1\[\$3\[1\]\] = len\(\$2\) - \$3\[0\] - 1$')
+        res.inst(key, v.loc(), f'{[r[1] for r in dep]}')
+        if not dep or not any(f'$3[1] in {_COMMON}' in g for r in dep for g in r[2]) \
+                or not any('$3[1] not in #1 or #1[$3[1]] < len($2) - $3[0] - 1' in g for r in dep for g in r[2]):
+            res.find(key, v.loc(), '_shortest_hyp_paths no longer records, for each common hypernym met on a path, the maximum of '
+                                   '`len(path) - position - 1` as its depth')
+        key = 'anchor:shortest:subpaths'
+        sub = v.find('call', '#2[$3[1]][$1[0]].append($2[:$3[0] + 1])')
+        res.inst(key, v.loc(), f'{len(sub)}')
+        if not sub or not all(c[0] == f'for {both}' for _, _, _, c, _ in sub):
+            res.find(key, v.loc(), '_shortest_hyp_paths no longer collects, per side and common hypernym, the sub-path up to that hypernym')
+    lch_max = f'max([_2 for _1, _2 in {_SHP}], default=-1)'
+    expect(res, 'anchor:lch', T('lowest_common_hypernyms'), [
+        ('return', '[]', (f'{lch_max} == -1',)),
+        ('call', '#1.append($1[0])', (f'$1[1] == {lch_max}',), (f'for {_SHP}',)),
+        ('return', '#1', (f'{lch_max} != -1',)),
+    ], 'lowest_common_hypernyms returns the common hypernyms of greatest depth ([] when nothing is shared)')
+    v = T('taxonomy_depth')
+    ok = expect(res, 'anchor:taxonomy_depth', v, [
+        ('store', '#2 = max(#2, max((len(_1) for _1 in $1.hypernym_paths())))', ('$1.hypernym_paths()',), ('for _synsets_for_pos(wordnet, pos)',)),
+        ('return', '#2'),
+    ], 'taxonomy_depth is the longest hypernym path over ALL synsets of the part of speech')
+    if ok:
+        key = 'anchor:taxonomy_depth:skip-is-sound'
+        st = v.find('store', text_re=r'^#2 = max')
+        extra = set()
+        for r in st:
+            extra |= {g for g in r[2] if g != '$1.hypernym_paths()'}
+        res.inst(key, v.loc(), f'{sorted(extra)}')
+        allowed = {'not all((_1 in #1 for _1 in $1.hypernyms()))'}
+        if extra - allowed:
+            res.find(key, v.loc(), f'taxonomy_depth skips synsets under {sorted(extra - allowed)}: only synsets all of whose hypernyms were '
+                                   f'already seen on a measured path may be skipped (their paths are sub-paths of measured ones)')
+        new0 = [e for e in v.E if e.kind == 'new' and e.text.startswith('#2<')]
+        if not new0 or new0[0].text != '#2<0>':
+            res.find(key + ':init', v.loc(), 'the depth no longer starts at 0')
 
 
 RULES = [
@@ -215,5 +238,5 @@ RULES = [
     ('C13-R2', r2_forwarding, 10),
     ('C13-R3', r3_as_merge, 1),
     ('C13-R4', r4_determinism, 10),
-    ('C13-R5', r5_anchors, 20),
+    ('C13-R5', r5_anchors, 14),
 ]
